@@ -1317,6 +1317,48 @@ def _scenario(model, body):
     return found, None
 
 
+def _sc_struct_array(hw, found):
+    """a hybrid class with an array of STRUCTS field (`ps: P[2]`, P{x: Float64}): to_dict() gives a dictionary and
+    from_dict(to_dict()) rebuilds the items (PF60: the comparison with the declared default asked such an array for a
+    numeric view and to_dict raised NotImplementedError)"""
+    I = hw.I
+    F = I.global_lookup("scalar", "Float64")
+    I64 = I.global_lookup("scalar", "Int64")
+    Pt = hw.lab.struct("P", [("x", F)])
+    AP = hw.lab.array("Arr2P", [2], (0,), Pt)
+    H = hw.mkclass("H", {"a": I64, "ps": AP})
+    h = I.call(H, [], {"a": 1, "ps": [{"x": 1.5}, {"x": 2.5}], "_buffer": hw.buf("A")})
+    try:
+        d = I.call(I.getattr(h, "to_dict"), [], {})
+    except PyExc as e:
+        found.append(f"H(a=1, ps=[P(x=1.5), P(x=2.5)]).to_dict() raises {e.etype}: {e.msg}")
+        return
+    if not isinstance(d, dict) or "ps" not in d:
+        found.append(f"to_dict() leaves the array of structs out: {d!r}")
+        return
+    try:
+        h2 = I.call(I.getattr(H, "from_dict"), [d], {"_buffer": hw.buf("B")})
+        got = [I.getattr(I.call(I.getattr(I.getattr(h2, "ps"), "__getitem__"), [k], {}), "x") for k in range(2)]
+    except PyExc as e:
+        found.append(f"from_dict(to_dict()) raises {e.etype}: {e.msg}")
+        return
+    if got != [1.5, 2.5]:
+        found.append(f"from_dict(to_dict()).ps reads x = {got!r}, the original [1.5, 2.5]")
+    # a fixed-shape array of dynamically sized items (String[2]) has no default that can be built: to_dict must cope
+    # (PF61: building it raised IndexError, which to_dict does not expect from a field without default)
+    Str = I.global_lookup("string", "String")
+    AS2 = hw.lab.array("Arr2String", [2], (0,), Str)
+    H2 = hw.mkclass("H2", {"a": I64, "s": AS2})
+    g = I.call(H2, [], {"a": 1, "s": ["ab", "cd"], "_buffer": hw.buf("A")})
+    try:
+        d2 = I.call(I.getattr(g, "to_dict"), [], {})
+    except PyExc as e:
+        found.append(f"H2(a=1, s=['ab', 'cd']) with s: String[2]: to_dict() raises {e.etype}: {e.msg}")
+        return
+    if not isinstance(d2, dict) or "s" not in d2:
+        found.append(f"to_dict() leaves the String[2] field out: {d2!r}")
+
+
 def _sc_field_table(hw, found):
     """class B reuses the field table of class A (`{'v': Float64[:], **A._xofields}`): A's objects, old and new, must
     read what they read before (PF57: the xo.Field objects were shared and B's layout written into them)"""
@@ -1418,6 +1460,7 @@ def _sc_ctor_struct_name(hw, found):
 
 SCENARIOS = {
     "field-table-reuse": (_sc_field_table, "struct::MetaStruct.__new__", ["C18", "C19"]),
+    "dict-array-of-structs": (_sc_struct_array, "hybrid_class::HybridClass.to_dict", ["C19"]),
     "ref-dict-renamed": (_sc_ref_dict, "hybrid_class::HybridClass._dict_with_xo_names", ["C19"]),
     "ctor-struct-name": (_sc_ctor_struct_name, "hybrid_class::HybridClass.xoinitialize", ["C18"]),
 }
